@@ -57,16 +57,16 @@ const (
 )
 
 var (
-	c14Base       = time.Now()
-	c14Started    bool
-	c14StartNs    int64
-	c14CatInput   string
-	c14MedInput   string
+	c14Base        = time.Now()
+	c14Started     bool
+	c14StartNs     int64
+	c14CatInput    string
+	c14MedInput    string
 	c14SpreadInput string
-	c14CalibOnce  sync.Once
-	c14CatNatural time.Duration
-	c14Failed     int
-	c14Hung       bool
+	c14CalibOnce   sync.Once
+	c14CatNatural  time.Duration
+	c14Failed      int
+	c14Hung        bool
 )
 
 func c14Now() int64 { return int64(time.Since(c14Base)) }
